@@ -35,9 +35,11 @@ Dev_PyDerivedStructAsType(d) ==    \* D.parse(span) of a derived struct
 Dev_SizeModifier(d) ==             \* size < modifier accepted
   AnyField(d, LAMBDA decl, j, f : f.mod > 0)
 
-Dev_PySplitReservedChunk(d) ==      \* adjacent reserved fields (a reserved-only chunk in several pieces) are skipped unchecked
-  \E i \in PacketLike(d) : \E j \in 1..(Len(d.decls[i].fields) - 1) :
-     d.decls[i].fields[j].kind = "reserved" /\ d.decls[i].fields[j + 1].kind = "reserved"
+Dev_PySplitReservedChunk(d) ==      \* reserved-only chunks (adjacent reserved fields, or a reserved field of whole octets) may be skipped unchecked
+  \/ \E i \in PacketLike(d) : \E j \in 1..(Len(d.decls[i].fields) - 1) :
+        d.decls[i].fields[j].kind = "reserved" /\ d.decls[i].fields[j + 1].kind = "reserved"
+  \/ \E i \in PacketLike(d) : \E j \in 1..Len(d.decls[i].fields) :
+        d.decls[i].fields[j].kind = "reserved" /\ d.decls[i].fields[j].width % 8 = 0
 
 PyClean(d) ==
   /\ PySupported(d)
